@@ -279,12 +279,18 @@ Nondet ==
   /\ Record({"C01_Deterministic"}, {})
   /\ UNCHANGED <<ln0, bid, E, XD, U, SEEN, S, cfg, cnt>>
 
+(* the process executing this behaviour was killed by a signal (memory fault inside the library) *)
+Crash ==
+  /\ Ev.k = "crash" /\ ~failed
+  /\ Record({"C01_NoFailure"}, {})
+  /\ UNCHANGED <<ln0, bid, E, XD, U, SEEN, S, cfg, cnt>>
+
 TInit == /\ l = 1 /\ ln0 = 0 /\ bid = "" /\ E = EmptyFn /\ XD = {} /\ U = <<>> /\ SEEN = EmptyFn /\ S = EmptyFn /\ cfg = EmptyFn /\ failed = FALSE
          /\ viol = {} /\ drift = {} /\ cnt = [beh |-> 0, ev |-> 0, checks |-> 0]
 
 TNext == /\ l <= Len(Rec)
          /\ l' = l + 1
-         /\ (Reset \/ Skip \/ Local \/ Deliver \/ SvOfUpdate \/ Sync \/ Txn \/ Nondet)
+         /\ (Reset \/ Skip \/ Local \/ Deliver \/ SvOfUpdate \/ Sync \/ Txn \/ Nondet \/ Crash)
 
 TSpec == TInit /\ [][TNext]_vars
 
